@@ -95,12 +95,16 @@ theorem finishC_ok (opt : Bool) (t : List Char) (st : CompSt) (he : st.errs = []
 
 /-! ### the registry hypothesis -/
 
-/-- The builder `b` implements the function `sem` at arity `n`: given any `n` argument stages it returns
-    – without a compile error – a stage which, in every context in which the arguments evaluate (to
-    `vals`), evaluates to `sem vals`.  Nothing is said about how (strictly like `pureBuilder`, lazily
-    like `if`, with constants folded at compile time …). -/
+/-- A stage that evaluates (does not panic) in every context. -/
+def Total (s : Stage) : Prop := ∀ ctx : Ctx, ∃ v, s.run ctx = .ok v
+
+/-- The builder `b` implements the function `sem` at arity `n`: given any `n` argument stages that
+    evaluate in every context it returns – without a compile error – a stage which, in every context,
+    evaluates to `sem` of the arguments' values there.  Nothing is said about how (strictly like
+    `pureBuilder`, lazily like `if`, probing its arguments and folding constants at compile time …), nor
+    about argument stages that can panic (a builder that probes such a stage may panic itself). -/
 def Implements (b : Builder) (sem : List Bytes → Bytes) (n : Nat) : Prop :=
-  ∀ cargs : List Stage, cargs.length = n →
+  ∀ cargs : List Stage, cargs.length = n → (∀ a ∈ cargs, Total a) →
     ∃ stage, b cargs = .ok ⟨some stage, none⟩ ∧
       ∀ (ctx : Ctx) (vals : List Bytes), cargs.map (·.run ctx) = vals.map .ok → stage.run ctx = .ok (sem vals)
 
@@ -134,7 +138,7 @@ theorem seq_run (ctx : Ctx) : ∀ (cargs : List Stage) (vals : List Bytes),
 
 /-- `pureBuilder sem` implements `sem` at every arity. -/
 theorem pureBuilder_implements (sem : List Bytes → Bytes) (n : Nat) : Implements (pureBuilder sem) sem n := by
-  intro cargs _
+  intro cargs _ _
   refine ⟨_, rfl, fun ctx vals h => ?_⟩
   rw [run_bind, seq_run ctx cargs vals h]
   rfl
@@ -241,7 +245,13 @@ theorem arg_ok' : ∀ (e : C09.Expr) (σ : Style) (fuel : Nat), Admissible e →
     have hlen : cargs.length = args.length := by
       have := congrArg List.length (hrun emptyCtx)
       simpa [evalArgs_length] using this
-    obtain ⟨stage, hst, hsem⟩ := himpl cargs hlen
+    have htot : ∀ a ∈ cargs, Total a := by
+      intro a ha' ctx
+      have h1 : a.run ctx ∈ cargs.map (·.run ctx) := List.mem_map.mpr ⟨a, ha', rfl⟩
+      rw [hrun ctx] at h1
+      obtain ⟨v, _, hv⟩ := List.mem_map.mp h1
+      exact ⟨v, hv.symm⟩
+    obtain ⟨stage, hst, hsem⟩ := himpl cargs hlen htot
     cases args with
     | nil => exact absurd rfl ha.2.1
     | cons a rest =>
